@@ -174,16 +174,31 @@ def presetOf (name : String) : Option Cfg :=
   else if name = "large" then some presetLarge
   else none
 
+/-! ## waits with a sub-millisecond part
+
+The model's clock (`State.now`, `Op.adv`) counts whole milliseconds: that is the grid of tokio's timer wheel, and every
+instant the harness visits lies on it. `max_wait_duration` is an arbitrary `Duration`; the bulkhead hands it to
+`tokio::time::timeout`, whose timer fires at the first millisecond boundary at or after `arrival + wait`
+(`deadline_to_tick` rounds UP). For an arrival on the grid that is `arrival + timerTicks wait`. `Cfg.maxWait` is this
+number of ticks; `cfgOf` computes it from the configured wait (`unit=us`: microseconds). Consequences (proved in
+`TR.Props.C07`): a caller is never rejected before its configured wait has fully elapsed, less than one millisecond after
+it, exactly then for whole-millisecond waits, and only a wait of exactly zero rejects without waiting. -/
+
+/-- number of timer ticks (ms) after which a `timeout` of `us` microseconds, started on a millisecond boundary, fires -/
+def timerTicks (us : Nat) : Nat := (us + 999) / 1000
+
 /-- The configuration a case header describes: an optional preset, then the builder calls in the order the adapter
-makes them — `max_concurrent_calls(max)` if given, `pre=reject` (`reject_when_full()`), `wait=` (`max_wait_duration`),
-`post=reject`: for the wait the last setter decides. -/
+makes them — `max_concurrent_calls(max)` if given, `pre=reject` (`reject_when_full()`), `wait=` (`max_wait_duration`,
+milliseconds, or microseconds with `unit=us`), `post=reject`: for the wait the last setter decides. -/
 def cfgOf (kv : Kv) : Cfg :=
   let base : Option Cfg := presetOf (kv.str "preset" "")
   let max := kv.nat "max" (match base with | some b => b.max | none => 1)
   let wait0 : Option Nat := match base with | some b => b.maxWait | none => none
   let wait1 : Option Nat := if kv.str "pre" "" = "reject" then some 0 else wait0
   let wait2 : Option Nat := if kv.str "wait" "" = "max" then some (10 ^ 30)
-                            else match kv.optNat "wait" with | some w => some w | none => wait1
+                            else match kv.optNat "wait" with
+                              | some w => some (if kv.str "unit" "" = "us" then timerTicks w else w)
+                              | none => wait1
   { max := max, maxWait := if kv.str "post" "" = "reject" then some 0 else wait2 }
 
 /-! ## line protocol -/
